@@ -246,6 +246,19 @@ class Scale:
         return x * self.factor + self.offset
     def __repr__(self):
         return f"Scale({self.factor!r}, {self.offset!r}, {self.since!r})"
+# TypeVars whose bound is a valid annotation that is not a plain class
+NumT = typing.TypeVar("NumT", bound=typing.Union[int, float])
+OptT = typing.TypeVar("OptT", bound=typing.Optional[decimal.Decimal])
+IntsT = typing.TypeVar("IntsT", bound=typing.List[int])
+Uid = typing.NewType("Uid", int)
+UidT = typing.TypeVar("UidT", bound=Uid)
+DayT = typing.TypeVar("DayT", bound=datetime.date)
+@dataclasses.dataclass
+class Reading(typing.Generic[NumT, IntsT, UidT]):
+    value: NumT
+    samples: IntsT
+    owner: UidT
+    count: int = 0
 PT = typing.TypeVar("PT")
 class Page(typing.Generic[PT]):
     # a user generic typed through its constructor only
@@ -272,7 +285,9 @@ class Job:
 PRIV_TARGETS = ["Doc", "DocPart", "Account", "Ledger", "Wrapped", "Plain", "typing.List[Doc]", "typing.Dict[str, Account]",
                 "typing.Optional[Wrapped]", "typing.Tuple[Account, Doc]", "Options", "Sized", "Job", "typing.List[Options]", "typing.Dict[str, Sized]",
                 "Scale", "ScaleHolder", "typing.List[Scale]", "AdminId", "LabeledPt", "Grant", "typing.List[AdminId]",
-                "Page", "typing.List[Page]", "typing.Dict[str, Page]", "KwWin", "typing.List[KwWin]", "typing.Optional[KwWin]"]
+                "Page", "typing.List[Page]", "typing.Dict[str, Page]", "KwWin", "typing.List[KwWin]", "typing.Optional[KwWin]",
+                "typing.List[NumT]", "typing.Dict[str, IntsT]", "typing.Tuple[UidT, OptT]", "typing.Optional[typing.List[UidT]]", "Reading",
+                "typing.List[Reading]", "typing.List[DayT]"]
 PRIV_INPUTS = ["{'_id': '7c5b9e1e-3f65-4b0a-9a57-0f6c0b1d2a11', 'title': 'a'}", "{'_id': ['not', 'a'], 'title': 'a'}",
                "'{\"_id\": \"7c5b9e1e-3f65-4b0a-9a57-0f6c0b1d2a11\", \"title\": \"a\"}'", "{'_rev': '3', '_tags': ['1', '2']}", "{'_rev': None}",
                "{'owner': 'ann', '_balance': '12.50'}", "{'owner': 'ann', '_balance': {'oops': None}}", "{'owner': 'ann'}",
@@ -290,7 +305,9 @@ PRIV_INPUTS = ["{'_id': '7c5b9e1e-3f65-4b0a-9a57-0f6c0b1d2a11', 'title': 'a'}", 
                "{'admin': {'value': '7'}, 'at': {'x': '1'}}", "[{'value': '1'}, {'value': '2'}]", "{'admin': ['3']}",
                "{'ids': ['1', '2'], 'total': '3', 'label': 7}", "{'ids': 'not a list of numbers', 'total': [], 'label': None}",
                "[{'ids': ['1'], 'total': '3', 'label': 7, 'cursor': 5}]", "{'k': {'ids': ['1', '2'], 'total': '3', 'label': 7}}",
-               "{'ident': '7', 'start': '2020-02-29', 'weight': '2.50'}", "[{'ident': '7', 'weight': 3}]", "{'ident': '1', 'start': 'junk'}"]
+               "{'ident': '7', 'start': '2020-02-29', 'weight': '2.50'}", "[{'ident': '7', 'weight': 3}]", "{'ident': '1', 'start': 'junk'}",
+               "['1', '2.5']", "b'[\"1\", \"2\"]'", "{'a': ('1', '2')}", "['1', '2.25']", "\"['1', '2']\"", "['2020-01-02']",
+               "{'value': '1', 'samples': ['1', '2'], 'owner': '7', 'count': '3'}", "[{'value': '1.5', 'samples': [], 'owner': 7}]"]
 
 
 def _priv_child(ann):
@@ -313,6 +330,10 @@ def _priv_child(ann):
             return any(conf(m, x) for m in ar)
         if a is type(None):
             return x is None
+        if isinstance(a, typing.TypeVar):
+            return conf(a.__bound__, x)
+        if hasattr(a, "__supertype__"):
+            return conf(a.__supertype__, x)
         if og is tuple:
             return type(x) is tuple and len(x) == len(ar) and all(conf(m, e) for m, e in zip(ar, x))
         if og is list:
